@@ -63,6 +63,7 @@ def check(ctx):
     # mechanisms this property rests on (see shared.py): a change there is reported here as well
     from . import shared as _sh
 
+    _sh.path_tokenisers(ctx)
     _sh.gaf_reader(ctx)
     _sh.tag_parser(ctx)
     _sh.graph_loader(ctx)
